@@ -10,6 +10,6 @@ CONSTANTS
     Mode = "edges"
     Depth = 0
     Eager = TRUE
-    SSHook = FALSE
+    SSHook = TRUE
 VIEW View
 CHECK_DEADLOCK FALSE
